@@ -85,3 +85,41 @@ Proof.
   assert (T : forall i, nth i (tl x) 0 = nth (S i) x 0) by (intro i; destruct x; [destruct i; reflexivity|reflexivity]).
   rewrite !T. reflexivity.
 Qed.
+
+(* (3) below the first tabulated cumulative value the sampler EXTRAPOLATES the first segment of the
+   table (which starts at the SECOND grid point, the first one having no cumulative value): the
+   result is at most x_1 and is not bounded below by x_0. *)
+Theorem sampler_below_first pofx x u : gen_ok pofx x -> u <= nth 0 (pcum_of pofx x) 0 ->
+  exists y, sampler pofx x u = Ok y
+            /\ y == lin (nth 0 (pcum_of pofx x) 0) (nth 1 (pcum_of pofx x) 0) (nth 1 x 0) (nth 2 x 0) u
+            /\ y <= nth 1 x 0.
+Proof.
+  intros G Hu. pose proof (tables_props pofx x G) as TP. cbv zeta in TP.
+  rewrite (sampler_eq pofx x u G). eexists. split; [reflexivity|].
+  unfold pcum_of in *. set (pc := snd (gen_tables false pofx x)) in *.
+  destruct TP as [_ [Lpc [H2 [Sv [Spc _]]]]].
+  unfold interpF. cbv zeta. rewrite Qred_correct.
+  destruct (bracket_cases pc u Spc H2) as [Hm C]. cbv zeta in Hm, C.
+  set (m := bracket (length pc) (cnt pc u)) in *.
+  assert (Em : m = 0%nat).
+  { destruct C as [[_ [E0 _]]|[[C1 _]|[_ [_ C]]]]; [exact E0| |].
+    - assert (nth 0 pc 0 <= nth m pc 0) by (apply incr_nth_le; [exact Spc|lia]). lra.
+    - assert (nth 0 pc 0 <= nth (S m) pc 0) by (apply incr_nth_le; [exact Spc|lia]). lra. }
+  rewrite Em.
+  assert (T : forall i, nth i (tl x) 0 = nth (S i) x 0) by (intro i; destruct x; [destruct i; reflexivity|reflexivity]).
+  rewrite !T. split; [reflexivity|].
+  assert (P01 : nth 0 pc 0 < nth 1 pc 0) by (apply incr_nth_lt; [exact Spc|lia]).
+  assert (X12 : nth 1 x 0 <= nth 2 x 0).
+  { destruct G as [_ [H3 [Sx _]]]. apply Qlt_le_weak. apply incr_nth_lt; [exact Sx|lia]. }
+  apply lin_le_left; assumption.
+Qed.
+
+(* the restriction "u at or above the first tabulated cumulative value" in the in-grid statement
+   cannot be dropped: a decreasing density sends small deviates BELOW the first grid point *)
+Theorem sampler_in_grid_without_restriction_refuted :
+  exists pofx x u y, gen_ok pofx x /\ 0 <= u <= 1 /\ sampler pofx x u = Ok y /\ y < nth 0 x 0.
+Proof.
+  exists [10; 10; 1], [0; 1; 2], 0, (-(9) # 11).
+  split; [apply gen_ok_b_sound; reflexivity|]. split; [split; discriminate|].
+  split; [vm_compute; reflexivity|reflexivity].
+Qed.
